@@ -101,6 +101,14 @@ var numExtra = []NumSpec{
 	{"2^-30@512", func() cty.Value { return parseNum("0.000000000931322574615478515625") }},
 	{"float64(0.1)exact@512", func() cty.Value { return parseNum("0.1000000000000000055511151231257827021181583404541015625") }},
 	{"-(1+2^-40)@512", func() cty.Value { return parseNum("-1.0000000000009094947017729282379150390625") }},
+	// negative numbers whose mantissa needs more than 53 bits
+	{"-(2^53+1)", func() cty.Value { return cty.NumberIntVal(-(1<<53 + 1)) }},
+	{"-0.1@512", func() cty.Value { return parseNum("-0.1") }},
+	{"-(2^64+1)@512", func() cty.Value { return parseNum("-18446744073709551617") }},
+	{"-1/3@512", func() cty.Value {
+		f := new(big.Float).SetPrec(512).Quo(big.NewFloat(-1).SetPrec(512), big.NewFloat(3).SetPrec(512))
+		return cty.NumberVal(f)
+	}},
 	{"1.5*2^1100", func() cty.Value { return cty.NumberVal(new(big.Float).SetMantExp(big.NewFloat(1.5), 1100)) }},
 }
 
